@@ -42,25 +42,27 @@ def run(tier, res, is_known):
     res.rule = ('BFS over SimulatedBroker histories (events: account/portfolio subscribe+withdraw, create, '
                 'submit, tick, quotes) from 4 initial states x fee configurations; a state is non-trivial '
                 'when at least one fill happened on the way; distinct = distinct canonical key')
-    res.bounds = {'depth': depth, 'fees': [list(f) for f in fees], 'initial_states': len(INITIALS)}
+    res.bounds = {'depth': depth, 'fees': [list(f) for f in fees], 'initial_states': len(INITIALS),
+                  'plan': '(fee, initial state, base currency, depth) - see parts'}
     res.assumptions += [
         'exact Fraction ledger; floats compared with 1e-9 relative tolerance; history amounts per the cents rule',
         'fills are taken as recorded by Portfolio.transact_asset (price side and commission are C05)',
         'values outside the alphabet are represented by generic (non-cancelling) decimals only',
     ]
-    plan = [(fee, i) for fee in fees for i in range(len(INITIALS))]
     if tier == 'quick':
-        plan = [(f, i) for f, i in plan if not (f[0] == 'pct' and i == 1)]      # init 2 extends init 1
-        plan.append((('pct', '0.00004', '0'), 3))      # commissions below half a cent (short / negative-cash state)
-    plan = [(fee, i, 'USD') for fee, i in plan]
-    # the account need not be in USD: every balance of another currency must stay untouched
-    plan.append((FEES_QUICK[1], 3 if tier == 'quick' else 2, 'GBP'))
-    if tier != 'quick':
-        plan.append((FEES_QUICK[0], 1, 'EUR'))
-    for fee, i, base in plan:
+        # from the empty state no fill is reachable within depth 4 (it needs 5 events), so the fee model is irrelevant
+        # there; the funded-and-flat state (1) is a prefix of the long state (2) and gets one level less
+        plan = [(FEES_QUICK[0], 0, 'USD', depth), (FEES_QUICK[0], 1, 'USD', depth - 1), (FEES_QUICK[0], 2, 'USD', depth),
+                (FEES_QUICK[0], 3, 'USD', depth), (FEES_QUICK[1], 2, 'USD', depth), (FEES_QUICK[1], 3, 'USD', depth),
+                (('pct', '0.00004', '0'), 3, 'USD', depth),      # commissions below half a cent
+                (FEES_QUICK[1], 3, 'GBP', depth)]               # the account need not be in USD
+    else:
+        plan = [(fee, i, 'USD', depth) for fee in fees for i in range(len(INITIALS))]
+        plan += [(FEES_QUICK[1], 2, 'GBP', depth), (FEES_QUICK[0], 1, 'EUR', depth)]
+    for fee, i, base, dep in plan:
         for init in [INITIALS[i]]:
             spec = bm.BrokerSpec('C01', fee, [init], alphabet, df_check=True, base=base)
-            bfs(spec, depth, res, is_known, label='fee=%s init=%d base=%s' % ('/'.join(fee), i, base))
+            bfs(spec, dep, res, is_known, label='fee=%s init=%d base=%s' % ('/'.join(fee), i, base))
             if any(not is_known(v) for v in res.violations):
                 return
 
